@@ -157,3 +157,34 @@ Qed.
 Example C20_help_hyps :
   NoDup (keys (n_cmds root)) /\ NoDup (keys (n_cmds root_rev)) /\ NoDup (List.map fst (listed_commands root)).
 Proof. split; [|split]; nodup_keys. Qed.
+
+(* hypotheses of the end-to-end Parse+Dispatch theorem on the same program, and a non-trivial
+   instance: a command function runs with the same arguments on both trees *)
+From GO Require Import Proofs.DispatchPerm.
+
+Ltac wfh_any :=
+  apply wfh_intro; [nodup_keys | nodup_keys |
+    intros k a H; vm_compute in H; repeat (destruct H as [H|H]; [inversion H; subst; clear H; wfh_any|]); contradiction].
+
+Example C20_wfh_hyp : wfh root /\ wfh root_rev.
+Proof. split; [unfold root | unfold root_rev, root]; vm_compute; wfh_any. Qed.
+
+Definition dargs := [tk "-v"; tk "deploy"; tk "--target=x"; tk "host"].
+Definition st_of (r : presult) : pst := match pr_out r with Ok (s, _) => s | Err _ => init root store0 end.
+Definition rem_of (r : presult) : list str := match pr_out r with Ok (_, rem) => rem | Err _ => [] end.
+
+Example C20_dispatch_fires :
+  let r := parse pf0 Normal false true specs root store0 dargs in
+  let r' := parse pf0 Normal false true specs root_rev store0 dargs in
+  r = mkRes (pr_warn r) (Ok (st_of r, rem_of r)) /\ r' = mkRes (pr_warn r') (Ok (st_of r', rem_of r')) /\
+  rem_of r = [tk "host"] /\
+  (match dispatch specs root (st_of r) (rem_of r) with DRan _ a _ => a = [tk "host"] | _ => False end) /\
+  dsim (dispatch specs root (st_of r) (rem_of r)) (dispatch specs root_rev (st_of r') (rem_of r')).
+Proof.
+  destruct C20_wfh_hyp as [W W']. intros r r'.
+  assert (P : r = mkRes (pr_warn r) (Ok (st_of r, rem_of r))) by (vm_compute; reflexivity).
+  assert (P' : r' = mkRes (pr_warn r') (Ok (st_of r', rem_of r'))) by (vm_compute; reflexivity).
+  split; [exact P|]. split; [exact P'|]. split; [vm_compute; reflexivity|]. split; [vm_compute; reflexivity|].
+  exact (proj2 (parse_dispatch_order_independent pf0 Normal false true specs root root_rev store0 dargs _ _ _ _ _ _
+            (nsim_rev_node _ _ C20_wfk_hyp) W W' P P')).
+Qed.
